@@ -571,7 +571,7 @@ def extend_cross_product(db, is_exact, i, lowers, uppers):
                 df = dfactoid(combine_dark_factoid(i, f1, f2), d1)
 
             # Reduce gcd
-            g = functools.reduce(gcd, df.factoid[:-1])
+            g = functools.reduce(gcd, df.factoid[:-1], 0)
             if g > 1:
                 elim_gcd_factoid = [i // g for i in df.factoid]
                 df = dfactoid(Factoid(elim_gcd_factoid), GCDCheck(df.deriv))
@@ -717,7 +717,14 @@ def solve_matrix(matrix, mode=EXACT):
     fs = [Factoid(f) if isinstance(f, collections.abc.Iterable) else f for f in matrix]
     db = dict()
     for ft in fs:
-        insert_db(db, dfactoid(ft, ASM(ft)))
+        df = dfactoid(ft, ASM(ft))
+        # Reduce gcd, as for derived factoids: the analysis of a single
+        # variable relies on unit coefficients.
+        g = functools.reduce(gcd, df.factoid[:-1], 0)
+        if g > 1:
+            elim_gcd_factoid = [i // g for i in df.factoid]
+            df = dfactoid(Factoid(elim_gcd_factoid), GCDCheck(df.deriv))
+        insert_db(db, df)
     r = solve(EXACT, db, len(matrix[0]))
     if isinstance(r, Satisfiable):
         return "SAT", r.store
@@ -798,7 +805,7 @@ class OmegaHOL:
 
     def gcd_pt(self, vars, pt):
         fact = term_to_factoid(vars, pt.prop)
-        g = functools.reduce(gcd, fact[:-1])
+        g = functools.reduce(gcd, fact[:-1], 0)
         assert g > 1
         pt1 = proofterm.ProofTerm('int_const_ineq', term.Int(g) > term.Int(0))
         pt2 = pt
